@@ -132,9 +132,9 @@ type AskSpec struct {
 	AllowPreemptSelf  bool   `json:"aps,omitempty"`
 	AllowPreemptOther bool   `json:"apo,omitempty"`
 	Originator        bool   `json:"orig,omitempty"`
-	Create            int64  `json:"create"`           // creation time in unix seconds (far past), distinct per ask
-	BoundNode         string `json:"bound,omitempty"`  // for ASK_BOUND: node the RM placed it on
-	Resize            Res    `json:"resize,omitempty"` // for ASK_RESIZE
+	Create            int64  `json:"create"`                 // creation time in unix seconds (far past), distinct per ask
+	BoundNode         string `json:"bound,omitempty"`        // for ASK_BOUND: node the RM placed it on
+	Resize            Res    `json:"resize,omitempty"`       // for ASK_RESIZE
 	ResizeNoNode      bool   `json:"resizeNoNode,omitempty"` // ASK_RESIZE re-sends the request as originally submitted (no node id) even when bound
 	BindNode          string `json:"bind,omitempty"`         // for ASK_BIND: the RM binds the outstanding ask itself on this node
 }
@@ -150,21 +150,21 @@ type ForeignSpec struct {
 // Scenario is the closed world the explorer enumerates: configuration(s), catalogues of nodes,
 // applications, asks and foreign allocations, predicate table, op alphabet and a scripted prefix.
 type Scenario struct {
-	Name      string        `json:"name"`
-	Configs   []string      `json:"configs"` // Configs[0] is the initial document; CONFIG(i) reloads Configs[i]
-	Nodes     []NodeSpec    `json:"nodes"`
-	Apps      []AppSpec     `json:"apps"`
-	Asks      []AskSpec     `json:"asks"`
-	Foreign   []ForeignSpec `json:"foreign,omitempty"`
-	Deny      [][2]string   `json:"deny,omitempty"`      // (ask key, node) pairs the predicate refuses
-	DenyPre   [][2]string   `json:"denyPre,omitempty"`   // (ask key, node) pairs the preemption predicate refuses
-	Alphabet  []string      `json:"alphabet"`            // op kinds that may be generated
-	Prefix    []Op          `json:"prefix,omitempty"`    // scripted ops applied before exploration
-	Reserve   bool          `json:"reserve,omitempty"`   // reservation delay 0 (true) or effectively infinite (false)
-	Preempt   bool          `json:"preempt,omitempty"`   // preemption timing thresholds crossed (attempt frequency 0)
-	MaxConfirmDup int       `json:"maxConfirmDup,omitempty"`
-	ExtraConfig map[string]string `json:"extraConfig,omitempty"`
-	Watchdog  bool          `json:"watchdog,omitempty"` // run every op under an in-process hang watchdog (C13/C10/C14)
+	Name          string            `json:"name"`
+	Configs       []string          `json:"configs"` // Configs[0] is the initial document; CONFIG(i) reloads Configs[i]
+	Nodes         []NodeSpec        `json:"nodes"`
+	Apps          []AppSpec         `json:"apps"`
+	Asks          []AskSpec         `json:"asks"`
+	Foreign       []ForeignSpec     `json:"foreign,omitempty"`
+	Deny          [][2]string       `json:"deny,omitempty"`    // (ask key, node) pairs the predicate refuses
+	DenyPre       [][2]string       `json:"denyPre,omitempty"` // (ask key, node) pairs the preemption predicate refuses
+	Alphabet      []string          `json:"alphabet"`          // op kinds that may be generated
+	Prefix        []Op              `json:"prefix,omitempty"`  // scripted ops applied before exploration
+	Reserve       bool              `json:"reserve,omitempty"` // reservation delay 0 (true) or effectively infinite (false)
+	Preempt       bool              `json:"preempt,omitempty"` // preemption timing thresholds crossed (attempt frequency 0)
+	MaxConfirmDup int               `json:"maxConfirmDup,omitempty"`
+	ExtraConfig   map[string]string `json:"extraConfig,omitempty"`
+	Watchdog      bool              `json:"watchdog,omitempty"` // run every op under an in-process hang watchdog (C13/C10/C14)
 }
 
 func (s *Scenario) Has(kind string) bool {
@@ -247,17 +247,17 @@ func PathString(p []Op) string {
 
 // Out is one normalised outbound SI message element, in emission order.
 type Out struct {
-	T      string `json:"t"`                // newalloc | release | appacc | apprej | appupd | nodeacc | noderej | allocrej
-	App    string `json:"app,omitempty"`
-	Key    string `json:"key,omitempty"`
-	Node   string `json:"node,omitempty"`
-	Res    Res    `json:"res,omitempty"`
-	Term   string `json:"term,omitempty"`   // termination type of a release
-	State  string `json:"state,omitempty"`  // application state of an update
-	Msg    string `json:"msg,omitempty"`
-	Ph     bool   `json:"ph,omitempty"`
-	TG     string `json:"tg,omitempty"`
-	Group  int    `json:"grp"`              // index of the rmevent message this element arrived in
+	T     string `json:"t"` // newalloc | release | appacc | apprej | appupd | nodeacc | noderej | allocrej
+	App   string `json:"app,omitempty"`
+	Key   string `json:"key,omitempty"`
+	Node  string `json:"node,omitempty"`
+	Res   Res    `json:"res,omitempty"`
+	Term  string `json:"term,omitempty"`  // termination type of a release
+	State string `json:"state,omitempty"` // application state of an update
+	Msg   string `json:"msg,omitempty"`
+	Ph    bool   `json:"ph,omitempty"`
+	TG    string `json:"tg,omitempty"`
+	Group int    `json:"grp"` // index of the rmevent message this element arrived in
 }
 
 type PredCall struct {
